@@ -131,15 +131,29 @@ def run(c):
         R = Experiment.Randomizer(randomize=NPC.randomize_in_strata if c["strat"] else NPC.randomize_group)
         e = Experiment(group=[0, 1, 0, 1, 1, 0], response=[[1]] * 6, covariate=cov, randomizer=R)
         np.random.seed(rep)
+        gst = lambda: (np.random.get_state()[1].tobytes(), np.random.get_state()[2])
+        g0 = gst(); touched = []
         e.randomize(in_place=True, seed=c["seed"])
+        if gst() != g0: touched.append("randomize(in_place=True, seed)")
         a = [int(v) for v in e.group]
+        g0 = gst()
         e2 = e.randomize(in_place=False, seed=c["seed"] + 1)
+        if gst() != g0: touched.append("randomize(in_place=False, seed)")
         tests = Experiment.make_test_array(Experiment.TestFunc.mean_diff, [0])
         e.response = np.array([[1], [2], [4], [8], [16], [32]], dtype=object)
-        g0 = np.random.get_state()[1].tobytes()
+        g0 = gst()
         sp = NPC.sim_npc(e, tests * 2, reps=4, seed=c["seed"] + 2, in_place=bool(rep == 0 or True))
+        if gst() != g0: touched.append("sim_npc(in_place=True, seed)")
+        g0 = gst()
         wy = NPC.westfall_young(e, tests, reps=4, seed=c["seed"] + 3, in_place=False)
-        gsame = g0 == np.random.get_state()[1].tobytes()
+        if gst() != g0: touched.append("westfall_young(in_place=False, seed)")
+        g0 = gst()
+        NPC.sim_npc(e, tests * 2, reps=2, seed=c["seed"] + 4, in_place=False)
+        if gst() != g0: touched.append("sim_npc(in_place=False, seed)")
+        g0 = gst()
+        NPC.westfall_young(e, tests, reps=2, seed=c["seed"] + 5, in_place=True)
+        if gst() != g0: touched.append("westfall_young(in_place=True, seed)")
+        gsame = touched
         outs.append([a, [int(v) for v in e2.group], [int(v) for v in e.group], float(sp[0]), [float(sp[2][0]), float(sp[2][1])], [float(wy[0][0]), float(wy[1][0])], gsame])
     # the SAME Experiment object re-seeded with the same seed, from the same assignment, after its generator was
     # advanced in place: every repetition must give the same result, and the same as a fresh SHA256(seed) generator
@@ -261,8 +275,8 @@ def oracle(c, o):
         a, b = o["outs"]
         if a != b:
             return {"why": f"seeded randomize / sim_npc / westfall_young from the same assignment differ between two runs: {a} vs {b}", "cls": "experiment:irreproducible"}
-        if not a[6] or not b[6]:
-            return {"why": "a seeded sim_npc / westfall_young call advanced numpy's global random state", "cls": "experiment:global-rng"}
+        if a[6] or b[6]:
+            return {"why": f"seeded calls advanced numpy's global random state: {a[6] or b[6]}", "cls": "experiment:global-rng"}
         for ent in o.get("same", []):
             what, r1, r2, r3, r4 = ent[:5]
             if len(ent) > 5 and any(x != r1 for x in ent[5]):
